@@ -270,7 +270,8 @@ def check_C02(tier):
     def pwork(t):
         pres[t] = pair_models(t)
 
-    ptables = [core.SEED % 3 + 1] if tier == "quick" else [1, 2, 3]
+    # (table 2 always: it is the one in which only the first of the two base columns has a missing cell)
+    ptables = sorted({2, core.SEED % 3 + 1}) if tier == "quick" else [1, 2, 3]
     ths = [threading.Thread(target=work, args=(i,)) for i in range(len(sizes))] + [threading.Thread(target=pwork, args=(t,)) for t in ptables]
     for t in ths:
         t.start()
